@@ -4,6 +4,7 @@ from __future__ import annotations
 import loop_traces as LT
 from props import _loop
 
+ESCALATE = True     # cheap thorough tier: run it whenever an anchor file differs from the pinned fingerprint
 RULE = ("live runs of all ten optimizer classes over iters in {1,2,3,5,7} x optimal_value {none, reached at the first / a "
         "middle generation / never} x termination_error_value {0, 1/8, 1} x no_increase_num {None,0,1,2,50} x both signs; "
         "the objective wrapper counts the individuals it really receives; expected stop generation recomputed in Python "
